@@ -372,6 +372,8 @@ class Built(object):
                 from spyne.model.complex import SelfReference
                 return SelfReference.customize(**kw) if kw else SelfReference
             c = self.classes[t['ref']]
+            if t.get('novalidate_freq'):
+                kw['validate_freq'] = False          # what novalidate_freq() sets: the occurrence counts of this object's members are not checked
             return c.customize(**kw) if kw else c
         if 'array' in t:
             return Array(self.spyne_type(t['array']), **kw)
